@@ -30,6 +30,9 @@ type WireScript struct {
 	Steps   []WireStep `json:"steps,omitempty"`
 	End     string     `json:"end,omitempty"` // close | reset | open
 	SSH     *SSHScript `json:"ssh,omitempty"`
+	// LingerMs: after the last step wait (at most 3x as long) until the server has written nothing
+	// for this long before ending the connection - for replies that are pushed asynchronously
+	LingerMs int `json:"linger_ms,omitempty"`
 }
 
 type Request struct {
